@@ -102,11 +102,15 @@ def run_entry(en, tier):
                 break
             ans = replay(reqs, REPLAY_LAYOUTS)
             main = ans[0]
+            repair_log = []
+            if "err" in main:
+                reqs[0], main, repair_log = sxh.repair_replay(reqs[0], REPLAY_LAYOUTS)
+                ans[0] = main
             same_site = "panic" in main and (main.get("file") is None or not str(main.get("file", "")).startswith("crates/") and "/crates/" not in str(main.get("file", ""))
                                              or (str(file).endswith(_tail(main.get("file"))) and int(main.get("line", -1)) == int(line)))
             pre_ok = all("ok" in a for a in ans[1:])
             rep = {"reproduced": "panic" in main and pre_ok, "same_site": bool(same_site), "request": reqs[0], "real_output": main,
-                   "precondition_requests": reqs[1:], "precondition_outputs": ans[1:]}
+                   "precondition_requests": reqs[1:], "precondition_outputs": ans[1:], "repair": repair_log}
             cex = {"shape": str(shape), "entry": en.name, "site": "%s:%s" % (file, line), "message": o.msg, "request": reqs[0]}
             if rep["reproduced"]:
                 obs.append(finish(ob, "violated", st, detail="panic `%s`; real function: %s%s; %s" % (
